@@ -467,6 +467,8 @@ class Calls(DataModels):
                 for e in c.ensures:
                     I.ctx.assume(I.as_goal(I.pure_eval(e, fr)))
                 ys = c.yield_shape
+                if callable(ys) and not hasattr(ys, 'make'):
+                    ys = ys(**fr.env)          # shape chosen from the (concrete parts of the) arguments
                 qn = c.qualname
                 ctxname = I.ctx.fname('y!' + qn)
                 outer = self
